@@ -107,8 +107,7 @@ Definition wf_prog (p : prog) : bool :=
   && forallb (fun f => wf_field f && leaf_ok p (f_ann f)) (all_fields p)
   && forallb (fun d => forallb (fun b => match find_decl p b with
                                           | Some d' => match d_kind d' with DDataclass => true | _ => false end
-                                          | None => false end) (d_bases d)) p
-  && forallb (fun d => match d_hidden d with [] => true | _ => false end) p.   (* every name is importable at run time *)
+                                          | None => false end) (d_bases d)) p.
 Definition wf_classes (p : prog) (cs : list name) : bool :=
   nodupb cs &&
   forallb (fun c => match find_decl p c with Some d => match d_kind d with DDataclass => true | _ => false end | None => false end) cs.
